@@ -1,9 +1,224 @@
-"""Reader-side obligations shared by C01 / C08 (filled in below)."""
+"""Reader-side obligations shared by C01 / C08:
+ N1a  the numeric expressions of the real DigitalRFReader._get_file_list (AST -> SMT, numpy.longdouble modelled exactly when present) bound
+      the candidate window correctly for every sample of 1980..2100 at the listed rates/cadences
+ N1b  CrossHair on the real _get_file_list with a list-backed numpy shim: for every s0 <= k <= s1 the writer's file of k is a candidate,
+      and _get_file_list(k, k) is exactly that file (bounded small domain; rate/cadence concrete)
+ R1/R2 (C01): _read / _combine_blocks harnesses of checks/ch/reader.py
+"""
+import ast, os, time
+from fractions import Fraction
+import z3
+from vlib import build, smt, rates, spec, astnum, chx
+
+PYFILE = os.path.join(build.PYPKG, 'digital_rf_hdf5.py')
+
+REPLAY_N1 = '''
+from vlib import build, spec
+import numpy as np, tempfile, os, shutil, sys, warnings
+warnings.simplefilter('ignore')
+drf = build.load_pkg()
+n, d, sc, fc, k = %r
+top = tempfile.mkdtemp(); os.makedirs(top + '/ch')
+start = max(0, k - 2)
+w = drf.DigitalRFWriter(top + '/ch', 'i2', sc, fc, start, n, d, 'u', is_complex=False, is_continuous=False, marching_periods=False)
+w.rf_write(np.arange(5, dtype='i2')); w.close()
+r = drf.DigitalRFReader(top)
+bad = 0
+for (a, b) in ((k, k), (start, k), (k, start + 4), (start, start + 4)):
+    got = {int(kk): [int(x) for x in np.ravel(v)] for kk, v in r.read(a, b, 'ch').items()}
+    want = {a: [i - start for i in range(a, b + 1)]}
+    if got != want: print('read(%%d, %%d) returned %%s, expected %%s' %% (a, b, got, want)); bad = 1
+try:
+    p = r.get_properties('ch', sample=k)
+except Exception as e:
+    print('get_properties(sample=%%d) raised %%s: %%s' %% (k, type(e).__name__, e)); bad = 1
+print('file of k:', spec.subdir_name(spec.dir_sec(k, n, d, sc)) + '/' + spec.file_name(spec.file_ms(k, n, d, fc)))
+shutil.rmtree(top)
+sys.exit(1 if bad else 0)
+'''
+
+
+def n1a(rep, st, tier, want_single=False):
+    """numeric window bounds of _get_file_list vs exact rational time"""
+    try:
+        fn = astnum.find_function(PYFILE, 'DigitalRFReader._get_file_list')
+    except astnum.Unsupported as e:
+        rep.ob('N1a: _get_file_list numeric bounds', 'inconclusive', detail=str(e)); return
+    params = [a.arg for a in fn.args.args]
+    asg = {}
+    for ln, name, val in astnum.assignments(fn):
+        if name in ('start_ts', 'end_ts', 'start_msts', 'end_msts', 'sample0', 'sample1') and name not in asg:
+            asg[name] = val
+    need = ('start_ts', 'end_ts', 'start_msts', 'end_msts')
+    if any(x not in asg for x in need):
+        rep.ob('N1a: _get_file_list numeric bounds', 'inconclusive', detail='assignments %s not found' % [x for x in need if x not in asg]); return
+    rate_list = (rates.QUICK_RATES if tier == 'quick' else rates.thorough_rates(40))
+    cad_list = rates.QUICK_CADENCES if tier == 'quick' else rates.thorough_cadences()
+    t0 = time.time(); nq = 0; bad = 0; unk = 0; ncfg = 0
+    k = z3.Int('k')
+    floats = any('samples_per_second' in ast.unparse(asg[x]) for x in need)
+    for (n, d) in rate_list:
+        lo, hi = -((-rates.Y1980 * n) // d), (rates.Y2100 * n) // d
+        for (sc, fc) in cad_list:
+            if fc * n < 1000 * d: continue
+            ncfg += 1
+            SEC = (k * d) / n; MS = (k * d * 1000) / n
+            FM = (MS / fc) * fc; DIR = (SEC / sc) * sc
+            claims = [('start_ts', 'start second <= exact second of the first sample', lambda v: v <= SEC),
+                      ('end_ts', 'end second >= subdirectory second of the last sample', lambda v: v >= DIR),
+                      ('start_msts', 'start millisecond <= exact millisecond of the first sample', lambda v: v <= MS),
+                      ('end_msts', 'end millisecond >= file millisecond of the last sample', lambda v: v >= FM)]
+            if want_single:
+                claims += [('start_msts', 'single-sample query: start millisecond >= file millisecond (exactly one candidate)', lambda v: v >= FM),
+                           ('end_msts', 'single-sample query: end millisecond < next file millisecond (exactly one candidate)', lambda v: v < FM + fc)]
+            for var, text, claim in claims:
+                ch = astnum.Choices()
+                for run in ch.runs():
+                    env = {'sample0': k, 'sample1': k, 'subdir_cadence_seconds': sc, 'file_cadence_millisecs': fc,
+                           'samples_per_second': astnum.ld_const(n, d), 'sample_rate_numerator': n, 'sample_rate_denominator': d}
+                    cx = astnum.Ctx(run, env, {'k': (lo, hi)})
+                    try:
+                        v = astnum.ev(asg[var], cx)
+                        if isinstance(v, (astnum.LD, astnum.LDC)): v = cx.trunc(v)
+                    except astnum.Unsupported as e:
+                        rep.ob('N1a: _get_file_list numeric bounds', 'inconclusive', detail='unsupported syntax in %s: %s' % (var, e)); return
+                    r, m = smt.solve([k >= lo, k <= hi] + cx.cons, [z3.Not(claim(v))], 60, st); nq += 1
+                    if r == 'sat':
+                        kk = m[k].as_long(); bad += 1
+                        rep.violation('N1a: %s' % text, 'N1.reader_file_list.' + var, '%s fails at rate %d/%d, cadence %ds/%dms, sample %d (candidate list computed with %s)'
+                                      % (text, n, d, sc, fc, kk, 'numpy.longdouble' if floats else 'integers'),
+                                      replay_body=REPLAY_N1 % ((n, d, sc, fc, kk),), bounds='rate %d/%d cadence %ds/%dms' % (n, d, sc, fc),
+                                      sample={'rate': (n, d), 'cadence': (sc, fc), 'k': kk})
+                        break
+                    if r != 'unsat': unk += 1
+                if bad: break
+            if bad: break
+        if bad: break
+    if unk:
+        rep.ob('N1a: _get_file_list numeric bounds', 'inconclusive', detail='%d queries unknown' % unk)
+    elif not bad:
+        rep.ob('N1a: the window bounds computed by the real _get_file_list (%s) never exclude the file of a sample in range%s'
+               % ('numpy.longdouble arithmetic, exact IEEE model' if floats else 'exact integer arithmetic', '; single-sample queries select exactly one file' if want_single else ''),
+               'discharged', '%d (rate, cadence) configurations x all samples with time in [1980, 2100)' % ncfg, nq, time.time() - t0, nq,
+               sample={'expressions': {x: ast.unparse(asg[x]) for x in need}})
+
+
+TITLES_N1B = {
+    '_single_sample_one_file': 'N1b (CrossHair, executes the real loops): _get_file_list(k, k) is exactly [file of k] for 0 <= k <= 120 at 10 Hz and 200/3 Hz (get_properties(sample=k))',
+    '_filelist_witness': 'reachability: a two-file candidate list is reachable',
+}
+
+
+def n1b(rep, st, tier):
+    res = chx.run_module('filelist', per_condition_timeout=240 if tier == 'quick' else 900)
+    chx.report(rep, res, TITLES_N1B, sigs={k: 'N1.' + k.strip('_') for k in TITLES_N1B})
+
+
+TITLES_R = {
+    '_read_lengths': 'R1: block lengths == Blocks(Sem(index)) clipped to the range (per file, <=3 index rows)',
+    '_read_slices': 'R1: data read: one slice per block, exactly the rows of the requested samples, column = sub_channel',
+    '_read_witness': 'reachability: a two-block result is reachable',
+    '_two_files': 'R1: two files: blocks of both in file order, unreadable/vanished file skipped',
+    '_combine3': 'R2: cross-file merge: adjacent blocks merge, gaps split, ascending order, any input order',
+    '_combine2_arrays': 'R2: data mode: adjacent arrays concatenated in order, otherwise returned as-is',
+    '_combine_witness': 'reachability: a merge is reachable',
+}
 
 
 def c01_part(rep, st, tier):
-    pass
+    rep.functions += ['DigitalRFReader._get_file_list', '_top_level_dir_properties._read', 'DigitalRFReader._combine_blocks']
+    n1a(rep, st, tier)
+    n1b_symbolic(rep, st, tier)
+    n1b(rep, st, tier)
+    res = chx.run_module('reader', names=list(TITLES_R), per_condition_timeout=120 if tier == 'quick' else 600)
+    chx.report(rep, res, TITLES_R)
 
 
 def c08_part(rep, st, tier):
-    pass
+    n1a(rep, st, tier, want_single=True)
+    n1b_symbolic(rep, st, tier)
+    n1b(rep, st, tier)
+
+
+# ----------------------------------------------------------------------------- N1b (symbolic): membership of the writer's file in the list
+
+def _cmp(node, ev_):
+    a, b = ev_(node.left), ev_(node.comparators[0]); op = type(node.ops[0])
+    return {ast.GtE: a >= b, ast.Gt: a > b, ast.LtE: a <= b, ast.Lt: a < b, ast.Eq: a == b, ast.NotEq: a != b}[op]
+
+
+def n1b_symbolic(rep, st, tier):
+    """Read the loop structure of the real _get_file_list from its AST (range over subdirectory seconds, arange over file milliseconds,
+    validity mask, name formats) and let z3 show: for all s0 <= k <= s1 (times 1980..2100) the pair (dir_sec(k), file_ms(k)) is produced by
+    the loops, passes the mask, and is formatted to the writer's names."""
+    title = 'N1b: for all s0 <= k <= s1 the loops of _get_file_list yield subdir(dir_sec(k))/rf@file_ms(k) (range/arange membership, mask, name formats read from the AST)'
+    try:
+        fn = astnum.find_function(PYFILE, 'DigitalRFReader._get_file_list')
+        loops = [n_ for n_ in ast.walk(fn) if isinstance(n_, ast.For)]
+        outer = next(l for l in loops if isinstance(l.iter, ast.Call) and ast.unparse(l.iter.func) == 'range')
+        rng = outer.iter.args
+        sub_var = outer.target.id
+        body_asg = {x.targets[0].id: x.value for x in ast.walk(outer) if isinstance(x, ast.Assign) and isinstance(x.targets[0], ast.Name)}
+        ar = next(v for v in body_asg.values() if isinstance(v, ast.Call) and ast.unparse(v.func) in ('np.arange', 'numpy.arange'))
+        arr_name = next(k_ for k_, v in body_asg.items() if v is ar)
+        mask = next(v for v in body_asg.values() if isinstance(v, ast.Call) and ast.unparse(v.func) in ('np.logical_and', 'numpy.logical_and'))
+        comp = next(v for v in body_asg.values() if isinstance(v, ast.Call) and ast.unparse(v.func) in ('np.compress', 'numpy.compress'))
+        mask_name = next(k_ for k_, v in body_asg.items() if v is mask)
+        assert ast.unparse(comp.args[0]) == mask_name and ast.unparse(comp.args[1]) == arr_name
+        inner = next(l for l in ast.walk(outer) if isinstance(l, ast.For) and l is not outer)
+        elt = inner.target.id
+        fmt = next(v for v in body_asg.values() if isinstance(v, ast.BinOp) and isinstance(v.op, ast.Mod) and isinstance(v.left, ast.Constant) and isinstance(v.left.value, str))
+        sfmt = next(v for v in body_asg.values() if isinstance(v, ast.Call) and isinstance(v.func, ast.Attribute) and v.func.attr == 'strftime')
+        ts_call = next(v for v in body_asg.values() if isinstance(v, ast.Call) and ast.unparse(v.func).endswith('fromtimestamp'))
+        join = next(v for v in body_asg.values() if isinstance(v, ast.Call) and ast.unparse(v.func) == 'os.path.join')
+        appended = [x for x in ast.walk(inner) if isinstance(x, ast.Call) and isinstance(x.func, ast.Attribute) and x.func.attr == 'append']
+        ok_shape = (fmt.left.value == 'rf@%i.%03i.h5' and sfmt.args[0].value == '%Y-%m-%dT%H-%M-%S' and ast.unparse(ts_call.args[0]) == sub_var
+                    and len(appended) == 1 and len(join.args) == 2 and any(k_.arg == 'tz' and 'utc' in ast.unparse(k_.value) for k_ in ts_call.keywords))
+        if not ok_shape: raise astnum.Unsupported('name formatting / append structure changed')
+    except (StopIteration, AssertionError, AttributeError, astnum.Unsupported) as e:
+        rep.ob(title, 'inconclusive', detail='loop structure of _get_file_list not recognised: %r' % (e,)); return
+    asg_all = {}
+    for ln, name, val in astnum.assignments(fn):
+        asg_all.setdefault(name, val)
+    rate_list = rates.QUICK_RATES if tier == 'quick' else rates.thorough_rates(40)
+    cad_list = rates.QUICK_CADENCES if tier == 'quick' else rates.thorough_cadences()
+    s0, k, s1 = z3.Ints('s0 k s1')
+    t0 = time.time(); nq = 0; ncfg = 0
+    for (n, d) in rate_list:
+        lo, hi = -((-rates.Y1980 * n) // d), (rates.Y2100 * n) // d
+        for (sc, fc) in cad_list:
+            if fc * n < 1000 * d or (sc * 1000) % fc: continue
+            ncfg += 1
+            env = {'sample0': s0, 'sample1': s1, 'subdir_cadence_seconds': sc, 'file_cadence_millisecs': fc,
+                   'sample_rate_numerator': n, 'sample_rate_denominator': d}
+            ch = astnum.Choices(); run = next(ch.runs())
+            cx = astnum.Ctx(run, env, {'s0': (lo, hi), 's1': (lo, hi), 'k': (lo, hi)})
+            try:
+                for nm in ('start_ts', 'end_ts', 'start_msts', 'end_msts', 'start_sub_ts', 'end_sub_ts'):
+                    v = astnum.ev(asg_all[nm], cx)
+                    if isinstance(v, (astnum.LD, astnum.LDC)): raise astnum.Unsupported('floating point candidate window (decided by N1a only)')
+                    cx.env[nm] = v
+                SEC = (k * d) / n; MS = (k * d * 1000) / n; FM = (MS / fc) * fc; DIR = (SEC / sc) * sc
+                a, b, c = (astnum.ev(x, cx) for x in rng)
+                cx.env[sub_var] = DIR
+                a2, b2, c2 = (astnum.ev(x, cx) for x in ar.args)
+                def evf(node):
+                    if isinstance(node, ast.Compare): return _cmp(node, evf)
+                    cx.env[arr_name] = FM; cx.env[elt] = FM
+                    return astnum.ev(node, cx)
+                m1, m2 = (evf(x) for x in mask.args)
+                p, q = (evf(x) for x in fmt.right.elts)
+            except (astnum.Unsupported, KeyError) as e:
+                rep.ob(title, 'inconclusive', detail='unsupported: %r' % (e,)); return
+            claim = z3.And(a <= DIR, DIR < b, (DIR - a) % c == 0, a2 <= FM, FM < b2, (FM - a2) % c2 == 0, m1, m2, p == FM / 1000, q == FM % 1000, q >= 0, q < 1000)
+            r, m = smt.solve([s0 >= lo, s0 <= k, k <= s1, s1 <= hi] + cx.cons, [z3.Not(claim)], 120, st); nq += 1
+            if r == 'sat':
+                kk = m[k].as_long()
+                rep.violation(title, 'N1.reader_file_list.loops', 'file of sample %d is not produced for range [%d, %d] at rate %d/%d cadence %ds/%dms'
+                              % (kk, m[s0].as_long(), m[s1].as_long(), n, d, sc, fc), replay_body=REPLAY_N1 % ((n, d, sc, fc, kk),),
+                              sample={'rate': (n, d), 'cadence': (sc, fc), 'k': kk, 's0': m[s0].as_long(), 's1': m[s1].as_long()})
+                return
+            if r != 'unsat':
+                rep.ob(title, 'inconclusive', detail='solver unknown at rate %d/%d cadence %ds/%dms' % (n, d, sc, fc)); return
+    rep.ob(title, 'discharged', '%d (rate, cadence) configurations x all s0 <= k <= s1 with times in [1980, 2100)' % ncfg, nq, time.time() - t0, nq,
+           sample={'range': [ast.unparse(x) for x in rng], 'arange': [ast.unparse(x) for x in ar.args], 'mask': [ast.unparse(x) for x in mask.args]})
